@@ -418,7 +418,7 @@ Section Base.
     - (* ANY *) stepA.
       destruct (i_match_char I (fun _ => true) pos) as [[[p c]|]|]; fin.
     - (* SOI *) stepA. destruct (i_at_start I pos); fin.
-    - (* EOI *) stepA. cbn [e_rules]. rewrite N.eqb_refl. cbn [r_body r_emis resolve]. stepA.
+    - (* EOI *) stepA. cbn [e_rules env_of]. rewrite N.eqb_refl. cbn [r_body r_emis resolve]. stepA.
       destruct (i_at_end I pos); [|fin].
       destruct (i_span I pos pos); fin.
     - (* PEEK *) stepA.
@@ -467,7 +467,7 @@ Section Base.
     leaf e = true ->
     lagree (p_step G R CALL lf at_ la e pos stk) (aparse E (3 + m) inh (tr eoi k e) pos stk).
   Proof.
-    destruct e; cbn [leaf]; try discriminate; intros _; change (3 + m) with (S (S (S m))).
+    destruct e; cbn [leaf]; try discriminate; intros Hl; change (3 + m) with (S (S (S m))).
     - (* OStr *) cbn [tr p_step]. stepA.
       destruct (i_match_string I s pos) as [[p|]|]; fin.
     - (* OInsens *) cbn [tr p_step]. stepA.
@@ -475,9 +475,9 @@ Section Base.
       cbn [pleaf plift aleaf alift]. destruct (i_span I pos p) as [sp|]; [|fin]. cbn [alift].
       destruct (span_str I sp); fin.
     - (* ORange *) cbn [tr p_step p_inp penv_of]. apply range_agree. intros c. reflexivity.
-    - (* OIdent *) destruct i; try discriminate.
-      + cbn [tr tr_ident p_step]. apply builtin_agree.
-      + cbn [tr tr_ident p_step]. stepA. cbn [e_pred p_pred].
+    - (* OIdent *) destruct i; try discriminate Hl.
+      + cbn [tr tr_ident p_step]. apply (builtin_agree at_ la b pos stk inh m).
+      + cbn [tr tr_ident p_step]. stepA. cbn [e_pred p_pred env_of penv_of].
         destruct (i_match_char I (pred p) pos) as [[[p' c]|]|]; fin.
     - (* OPeekSlice *) cbn [tr p_step]. stepA.
       change (a_slice stk a b) with (p_slice stk a b).
